@@ -141,6 +141,16 @@ func genWOperand(rt *rapid.T, vc *valConfig) *Val {
 		if !vc.fmtCompat {
 			return &Val{K: "unsafe", Sub: []*Val{mk()}}
 		}
+	case 7:
+		if !vc.fmtCompat {
+			// two or three wrappers around the error (the printer strips them
+			// all; whatever decides beforehand must do the same)
+			v := mk()
+			for i, n := 0, rapid.IntRange(2, 3).Draw(rt, "nwrap"); i < n; i++ {
+				v = &Val{K: pick(rt, "wrapk", []string{"safe", "unsafe"}), Sub: []*Val{v}}
+			}
+			return v
+		}
 	}
 	return mk()
 }
